@@ -98,6 +98,43 @@ def unbounded_contains(declared, cells):
     return True
 
 
+def check_read(g, by_addr, formula, addr):
+    """None, or (verdict, message, reader address) for one traced read"""
+    reader = formula.cell
+    if reader is None or addr in W.ERRORS:
+        return None
+    raddr = reader.address.address
+    declared = [a.address for a in formula.needed_addresses]
+    cells = addr_cells(addr)
+    ok_decl = addr in declared
+    if not ok_decl:
+        for d in declared:
+            dc = addr_cells(d)
+            if cells and dc and cells <= dc or cells and dc is None and unbounded_contains(d, cells):
+                ok_decl = True
+                break
+    if not ok_decl:
+        return ('read-not-declared', f'{raddr} read {addr}, which is not among its declared precedents {declared}', raddr)
+    rn, pn = by_addr.get(raddr), by_addr.get(addr)
+    if rn is None:
+        return ('reader-not-in-graph', f'reader {raddr} is not a node of the dependency graph', raddr)
+    has_edge = pn is not None and g.has_edge(pn, rn)
+    if not has_edge:
+        for pred in g.predecessors(rn):
+            pc = addr_cells(pred.address.address)
+            if cells and pc and cells <= pc or cells and pc is None and unbounded_contains(pred.address.address, cells):
+                has_edge = True
+                break
+    if not has_edge:
+        return ('edge-missing', f'{raddr} read {addr} but the graph has no edge {addr} -> {raddr}', raddr)
+    if pn is not None and ':' in addr and not getattr(pn, 'formula', None):
+        preds = {p.address.address for p in g.predecessors(pn)}
+        missing = sorted(c for c in (cells or set()) if c not in preds)
+        if missing:
+            return ('range-member-edge-missing', f'range {addr} is read by {raddr} but has no edge from its member cells {missing}', raddr)
+    return None
+
+
 def run_formula(name, text, env, acc, do_consequence):
     import pycel.excelformula as EF
     spec = base_spec(env)
@@ -126,6 +163,11 @@ def run_formula(name, text, env, acc, do_consequence):
     by_addr = {n.address.address: n for n in g.nodes()}
     for formula, addr in reads:
         acc.add('transitions')
+        v = check_read(g, by_addr, formula, addr)
+        if v:
+            acc.violation(dict(case, verdict=v[0], reader=v[2], read=addr), f'={text}: ' + v[1])
+    reads = []
+    for formula, addr in reads:
         reader = formula.cell
         raddr = reader.address.address if reader is not None else None
         if reader is None or addr in W.ERRORS:
@@ -218,21 +260,34 @@ class PG:
         self.poison = None
         if fcs:
             tgt = W.split_addr(fcs[-1])[1]
-            self.spec['sheets'][sh]['Z9'] = f'={tgt}+[1]Other!A1'
-            self.poison = f'{sh}!Z9'
+            self.spec['sheets'][sh]['Z1'] = f'={tgt}+[1]Other!A1'     # row 1: does not enlarge the used rows
+            self.poison = f'{sh}!Z1'
         self.deps = W.spec_deps(fam['spec'])
         self.ops = [('ev', a) for a in fam['cells'] + fam['ranges'][:1]] + ([('ev', self.poison)] if self.poison else [])
         self.inputs = fam['inputs'][:1]
         self.ops += [('set', i, 41) for i in self.inputs]
+        if fcs and self.inputs:
+            self.ops.append(('trim', self.inputs[0], fcs[-1]))
         self.checked = 0
+        self.read_checks = 0
 
     def new(self):
-        return {'m': W.compile_inmem(self.spec)}
+        return {'m': W.compile_inmem(self.spec), 'trimmed': False, 'reads': []}
 
     def step(self, st, op):
+        import pycel.excelformula as EF
+        st['reads'] = []
         try:
             if op[0] == 'ev':
-                return ('ok', st['m'].evaluate(op[1]))
+                EF._VERIF_READ_TRACE = lambda formula, address: st['reads'].append((formula, str(address)))
+                try:
+                    return ('ok', st['m'].evaluate(op[1]))
+                finally:
+                    EF._VERIF_READ_TRACE = None
+            if op[0] == 'trim':
+                st['m'].trim_graph([op[1]], [op[2]])
+                st['trimmed'] = True
+                return ('trim',)
             st['m'].set_value(op[1], op[2])
             return ('set',)
         except Exception as exc:
@@ -252,6 +307,16 @@ class PG:
         m = st['m']
         g = m.dep_graph
         by_addr = {n.address.address: n for n in g.nodes()}
+        if obs[0] == 'ok':
+            for formula, addr in st['reads']:
+                if formula.cell is not None and formula.cell.address.address == self.poison:
+                    continue
+                self.read_checks += 1
+                v = check_read(g, by_addr, formula, addr)
+                if v:
+                    return f'after this history, {v[1]}'
+        if st['trimmed']:
+            return None        # frozen cells have no precedents any more: only the read check applies
         for a, c in list(m.cell_map.items()):
             if ':' in a or not getattr(c, 'formula', None) or a == self.poison or a not in self.deps:
                 continue
@@ -295,6 +360,7 @@ def work_graph(job):
     acc.add('transitions', res['transitions'])
     acc.add('evaluations', res['transitions'])
     acc.add('graph_invariant_checks', p.checked)
+    acc.add('read_edge_checks_in_histories', p.read_checks)
     acc.add('distinct_nontrivial', res['states'])
     return acc.result()
 
